@@ -9,6 +9,7 @@ import (
 	"io"
 	"net"
 	"net/http"
+	"net/url"
 	"os"
 	"path/filepath"
 	"strings"
@@ -59,7 +60,7 @@ type c09Attempt struct {
 	Status  int
 }
 
-var c09bMods = []string{"ps", "pe-coff", "msi", "cat", "jar", "cab", "deb", "rpm", "bigjar", "xap"}
+var c09bMods = []string{"ps", "pe-coff", "msi", "cat", "jar", "cab", "deb", "rpm", "bigjar", "xap", "bigps"}
 
 func c09Remote(r *core.Run) {
 	t := r.T
@@ -70,7 +71,7 @@ func c09Remote(r *core.Run) {
 	overlap := t.Chance(1, 3, "focus-overlapping-producers")
 	mods := c09bMods
 	if overlap {
-		mods = []string{"msi", "xap", "jar", "msi", "bigjar"}
+		mods = []string{"msi", "xap", "jar", "msi", "bigjar", "bigps", "bigps"}
 	}
 	c := genSignCase(t, fmt.Sprintf("%dr", r.No), mods)
 	if c.Mod == "bigjar" {
@@ -78,19 +79,41 @@ func c09Remote(r *core.Run) {
 		c.File = fmt.Sprintf("big%d.jar", r.No)
 		c.Input = makeBigJar(t)
 	}
+	bigPlain := false
+	if c.Mod == "bigps" {
+		// a script of a few hundred KiB that barely compresses: the default
+		// transform hands out the file itself, so with request compression the
+		// compressor of an abandoned attempt and the next attempt share one
+		// file offset
+		c.Mod, c.SigType = "ps", "ps"
+		c.File = fmt.Sprintf("big%d.ps1", r.No)
+		c.Flags = url.Values{"ps-style": {".ps1"}}
+		var sb strings.Builder
+		sb.WriteString("Write-Host 'big'\r\n")
+		nl := 2000 + t.Choose(6000, "bigps-lines")
+		raw := t.Bytes(nl*24, "bigps")
+		for i := 0; i < nl; i++ {
+			fmt.Fprintf(&sb, "# %x\r\n", raw[i*24:i*24+24])
+		}
+		c.Input = []byte(sb.String())
+		bigPlain = true
+	}
 	key := pickKey(t, c)
 	nsib := t.Choose(5, "nsiblings") // 0: the directory server itself signs
 	retries := core.Pick(t, "retries", 3, 1, 2, 5)
 	failBias := core.Pick(t, "attempt-fail-bias", 4, 0, 7, 9)
 	legacyDir := t.Chance(1, 4, "legacy-directory")
 	advertise := core.Pick(t, "advertised-encodings", "default", "none", "gzip", "default")
-	if overlap && t.Chance(2, 3, "overlap-uncompressed") {
+	if bigPlain {
+		advertise = core.Pick(t, "bigps-encodings", "default", "gzip", "default", "none")
+	} else if overlap && t.Chance(2, 3, "overlap-uncompressed") {
 		// without request compression the transport reads the transform's
 		// pipe itself and keeps doing so after an early 503, for as long as
 		// the server drains the upload
 		advertise = "none"
 	}
 	samePath := t.Chance(1, 3, "output-in-place")
+	netBuf := core.Pick(t, "socket-buffer", 4<<10, 64<<10, 256<<10, 1<<20)
 	var attempts []c09Attempt
 	var dialFaults int
 	exitCode := -1
@@ -104,6 +127,7 @@ func c09Remote(r *core.Run) {
 	pgpKeys := pgpKeyring()
 
 	w := world.Run(r, world.Options{Cooperative: true, MaxSteps: 1500000}, func(w *world.World) {
+		w.NetBuf = netBuf
 		hosts := []string{"dir.sim"}
 		var sibURLs []string
 		for i := 0; i < nsib; i++ {
